@@ -140,7 +140,7 @@ Verdict(prev, line) ==
         ex |-> E("C09", C09ex(CanonStore(line.store), CanonModel(line.model)))
                \cup E("C10", AfterCrash(prev))
                \cup E("C11", C11ex(CanonStore(line.prestore), CanonModel(line.loaded)))]
-  ELSE IF line.ev \in {"Cycle", "CrashCycle"} /\ completed /\ line.model.alive
+  ELSE IF line.ev \in {"Cycle", "CrashCycle", "FaultCycle"} /\ completed /\ line.model.alive
   THEN [fail |-> dup \cup Published(line) \cup F("C08.stateRecord", StateRecordOk(line)),
         ex |-> E("C09", C09ex(CanonStore(line.store), CanonModel(line.model)))]
   ELSE IF line.ev = "Integrity" /\ prev.model.alive
